@@ -87,6 +87,22 @@ progs!(h11 {
     r(x, y) <-- s(x, y);
     o(x, y) <-- r(x, y);
 });
+// H12: two lattice keys in one dashmap shard but behind different insertion mutexes: while one worker holds the shard
+// lock for the first insert of one key, the other worker looks the other (present) key up
+progs!(h12 {
+    relation e(i32, u32);
+    lattice m(i32, u32);
+    m(x, *w) <-- e(x, w);
+});
+/// (ka, kb, kc): ka and kb share a dashmap shard of the lattice key index but not an insertion mutex; kc is elsewhere
+fn colliding_lattice_keys() -> (i32, i32, i32) {
+    let shards = ascent::internal::shards_count();
+    let dm: ascent::dashmap::DashMap<(i32,), (), std::hash::BuildHasherDefault<rustc_hash::FxHasher>> = ascent::dashmap::DashMap::with_hasher_and_shard_amount(Default::default(), shards);
+    let (ka, sa, ha) = (1, dm.determine_map(&(1,)), dm.hash_usize(&(1,)));
+    let kb = (2..100_000).find(|k| dm.determine_map(&(*k,)) == sa && dm.hash_usize(&(*k,)) % shards != ha % shards).expect("no colliding key");
+    let kc = (2..100_000).find(|k| dm.determine_map(&(*k,)) != sa).expect("no key in another shard");
+    (ka, kb, kc)
+}
 // H10: the lattice is read by the third body clause and written by the head: the row just read can be the row updated
 // (self loop) or a row another worker is reading
 progs!(h10 {
@@ -233,6 +249,24 @@ fn main() {
                 if variant == 0 { go!(par) } else { go!(irp) }
             };
             explore_harness(&mut rep, &prop, &hname, w, klat, cap, &body, &expected);
+        }
+    }
+    {
+        // (the slice is split in the middle: one worker gets (ka, 1), (kb, 2), the other (kc, 5), (ka, 3); the keys depend on
+        // the shard count of the pool, so they are computed inside the execution and the serial result next to them)
+        for (variant, label) in [(0, "par"), (1, "par+irp")] {
+            let hname = format!("H12-lattice-keys-sharing-a-shard[{}]", label);
+            if std::env::var("VSCHED_ONLY").ok().map_or(false, |o| o != hname) { continue; }
+            let body = move || -> String {
+                let (ka, kb, kc) = colliding_lattice_keys();
+                let load = [(ka, 1u32), (kb, 2), (kc, 5), (ka, 3)];
+                let want = { let mut p = h12::ser::P::default(); for t in load { p.e.push(t); } p.run(); fmt_rel("m", p.m.iter().map(|t| t.clone()).collect::<Vec<_>>()) };
+                macro_rules! go { ($m:ident) => {{ let mut p = h12::$m::P::default(); for t in load { p.e.push(t); } p.run();
+                    fmt_rel("m", p.m.iter().map(|t| t.read().unwrap().clone()).collect::<Vec<_>>()) }}; }
+                let got = if variant == 0 { go!(par) } else { go!(irp) };
+                if got == want { "same as serial".to_string() } else { format!("got {} serial {}", got, want) }
+            };
+            explore_harness(&mut rep, &prop, &hname, &[2], k, cap, &body, "same as serial");
         }
     }
     run_h!(&mut rep, &prop, "H11-eqrel-merge-vs-link", h11, &[2], k, cap, |p| { for t in [(0, 1), (1, 5), (2, 3), (2, 0)] { p.s.push(t); } },
